@@ -61,6 +61,12 @@ type c31Arm struct {
 	// fromFail: the arming is the reconnector's own re-arm after a failed attempt, which
 	// happens asynchronously some time after the callback returned
 	fromFail bool
+	// afterSuccess: armed by a Schedule()/disconnect that arrived while a SUCCEEDING attempt was
+	// in flight. The retry it justifies may have started before that success was processed
+	// (the two attempts then overlap); whether it still belongs to the finished run of failures
+	// or opens the new one is not defined by the property, so it is not counted: the retry after
+	// it is judged against the bound of retry 0.
+	afterSuccess bool
 }
 
 type c31Addr struct {
@@ -161,6 +167,7 @@ func (m *c31Model) arm(a *c31Addr, t time.Time, fromFail bool) {
 		if o := a.optional; o != nil {
 			// either event may be the one that fires: judge against the earlier one
 			a.pending.t, a.pending.k = o.t, o.k
+			a.pending.afterSuccess = o.afterSuccess
 			a.optional = nil
 		}
 		return
@@ -250,8 +257,13 @@ func (m *c31Model) onStart(ev *c31Start) {
 	if gap > m.upper(a.pending.k)+50*time.Millisecond {
 		m.r.Add("starts_later_than_upper_plus_50ms(info)", 1)
 	}
+	if a.pending.afterSuccess {
+		a.k = 0
+		m.r.Add("retries_overlapping_or_following_a_success_not_counted", 1)
+	} else {
+		a.k++
+	}
 	a.pending = nil
-	a.k++
 	ev.kAtStart = a.k
 	a.inflight = ev
 }
@@ -488,7 +500,7 @@ func c31UnitCase(r *verifkit.R, phase string, ci int, rng *verifkit.Rand) {
 			rearmed := a.pending
 			a.forget()
 			if rearmed != nil {
-				a.optional = &c31Arm{t: rearmed.t, k: 0, n: 1}
+				a.optional = &c31Arm{t: rearmed.t, k: 0, n: 1, afterSuccess: true}
 			}
 			kBefore := ev.kAtStart
 			ev.reply <- c31Reply{}
@@ -1046,7 +1058,7 @@ func c31ManagerCase(r *verifkit.R, phase string, ci int, rng *verifkit.Rand) {
 				a.forget()
 				// the retry requested by that disconnect may or may not survive the success; if it
 				// comes it is retry 0 of a new run
-				a.optional = &c31Arm{t: tCut, k: 0, n: 1}
+				a.optional = &c31Arm{t: tCut, k: 0, n: 1, afterSuccess: true}
 				judgeReset(kBefore, true)
 				return !m.broken
 			}
